@@ -6,6 +6,7 @@ from lib import pyvals as pv
 from lib.gallina import gstr, gbool, glist, gpair, gopt, gnat, gbytes
 
 ID = "C15"
+LOG_LEVEL_INVARIANT = True      # (harness/vp.py: a sample of the cases again with logging at DEBUG; same observables)
 RUN_MODULE = "RunC15"
 DRIVER = "s3conf_driver.py"
 SHARD = 60
